@@ -165,6 +165,15 @@ def apply_constraints(card, cons, names, log, free=None):
                 constr.setdefault("var_equal", []).append([a, b])
                 info["ties"].append([a, b])
         elif k == "var_range" and mags:
+            phases = sorted(n[:-1] + "i" for n in free_mags if n[:-1] + "i" in names)
+            if phases and c["j"] % 3 == 0:
+                # a range on a phase with one limit exactly 0
+                a = phases[c["i"] % len(phases)]
+                if ("range", a) in used:
+                    continue
+                used.add(("range", a))
+                constr.setdefault("var_range", {})[a] = [-3.2, 0] if c["j"] % 2 else [0, 3.2]
+                continue
             a = mags[c["i"] % len(mags)]
             if ("range", a) in used or ("tie", a) in used:
                 continue
